@@ -160,7 +160,8 @@ def tlc_mc(module, cfg, workdir, workers=8, timeout=3600, xmx="8g", extra=(), co
     if "Model checking completed. No error has been found." in out:
         res["ok"] = True
         return res
-    m = re.search(r"Invariant (\w+) is violated", out) or re.search(r"property (\w+) was violated", out) \
+    m = re.search(r"Invariant (\w+) is violated", out) or re.search(r"Action property (\w+) is violated", out) \
+        or re.search(r"property (\w+) was violated", out) \
         or re.search(r"Temporal properties were violated", out)
     if m:
         res["violated"] = m.group(1) if m.groups() else "temporal"
@@ -352,3 +353,43 @@ class Result:
               f"traces={self.traces} evaluations={self.evaluations} violations={len(self.violations)} "
               f"known={len(self.known_hits)} wall={wall}s")
         return 1 if self.violations else 0
+
+
+# --------------------------------------------------------------------------- design-level runs
+def write_cfg(path, spec, constants, invariants=(), properties=(), extra=()):
+    with open(path, "w") as f:
+        f.write(f"SPECIFICATION {spec}\nCONSTANTS\n")
+        for k, v in constants.items():
+            f.write(f"  {k} {v}\n" if str(v).startswith("<-") else f"  {k} = {v}\n")
+        for i in invariants:
+            f.write(f"INVARIANT {i}\n")
+        for p in properties:
+            f.write(f"PROPERTY {p}\n")
+        for e in extra:
+            f.write(e + "\n")
+        f.write("CHECK_DEADLOCK FALSE\n")
+
+
+def design_run(res, pid, name, module, spec, constants, invariants=(), properties=(), expect_violation=None,
+               workers=10, timeout=3600, xmx="12g", workdir=None):
+    """Exhaustive TLC run of a design-level model. A violated property is a VIOLATION of `pid`
+    (the design itself admits a bad state); a negative control that is NOT refuted is a tool error."""
+    wd = workdir or os.path.join(WORK, f"design-{pid}-{os.getpid()}")
+    os.makedirs(wd, exist_ok=True)
+    cfg = os.path.join(wd, f"{name}.cfg")
+    write_cfg(cfg, spec, constants, invariants, properties)
+    r = tlc_mc(module, cfg, wd, workers=workers, timeout=timeout, xmx=xmx, coverage=False)
+    res.add_mc(name, r)
+    os.remove(cfg)
+    if expect_violation:
+        if r["ok"] or not r["violated"]:
+            raise ToolError(f"negative control {name} was not refuted by TLC (vacuity guard)")
+        res.stages[-1]["negative_control_refuted"] = r["violated"]
+        return r
+    if not r["ok"]:
+        tail = r["out"][r["out"].find("Error:"):][:6000]
+        res.violation(f"design model {module} ({name}) violates {r['violated']}",
+                      {"property": pid, "engine": "tlc-design", "module": module, "spec": spec, "constants": constants,
+                       "invariants": list(invariants), "properties": list(properties), "violated": r["violated"],
+                       "counterexample": tail})
+    return r
